@@ -19,6 +19,8 @@ def header_reads(ctx):
     """(fi, call, header-name) for every literal ``<x>.headers.get("Name", ...)``."""
     out = []
     for fi in ctx.P.all_funcs():
+        if ctx.absorbed(fi):
+            continue
         for n in walk_local(fi.node):
             if isinstance(n, ast.Call) and isinstance(n.func, ast.Attribute) and n.func.attr == "get" \
                     and (dotted(n.func.value) or "").endswith(".headers") and n.args:
